@@ -203,8 +203,8 @@ func (r *rewriter) pkgOf(x ast.Expr) string {
 }
 
 var syncMap = map[string]string{"Mutex": "Mutex", "RWMutex": "RWMutex", "WaitGroup": "WaitGroup", "Once": "Once",
-	"Cond": "Cond", "NewCond": "NewCond", "Map": "SyncMap", "Locker": "Locker"}
-var syncKeep = map[string]bool{"Pool": true}
+	"Cond": "Cond", "NewCond": "NewCond", "Map": "SyncMap", "Locker": "Locker", "Pool": "Pool"}
+var syncKeep = map[string]bool{}
 var atomicTypes = map[string]string{"Bool": "AtomicBool", "Int32": "AtomicInt32", "Int64": "AtomicInt64", "Uint32": "AtomicUint32", "Value": "AtomicValue"}
 var atomicFuncs = map[string]bool{"AddInt32": true, "AddInt64": true, "AddUint32": true, "AddUint64": true, "LoadInt32": true, "LoadInt64": true,
 	"LoadUint32": true, "LoadUint64": true, "StoreInt32": true, "StoreInt64": true, "StoreUint32": true, "StoreUint64": true, "SwapInt32": true,
